@@ -234,10 +234,45 @@ rt_validator(const RegisterEntry *e, RegisterValue v)
     return rt_cb_pred((int)v.type, kind, v.value) != 0;
 }
 
+/* An entry written with the front-end macros of register-table.h (REG_U16RANGE(...), ...) instead of field by
+ * field. The macros are array initialisers: a one-element array each, copied out. */
+#define RT_VIA_MACROS_TYPE(T, ENUM, M)                                                                     \
+    case ENUM:                                                                                             \
+        switch (r->ck) {                                                                                   \
+        case REGV_TYPE_TRIVIAL: { RegisterEntry t_[1] = { REG_##T(0, r->addr, r->def.M) }; *e = t_[0]; } break;                      \
+        case REGV_TYPE_FAIL: { RegisterEntry t_[1] = { REG_##T##FAIL(0, r->addr, r->def.M) }; *e = t_[0]; } break;                   \
+        case REGV_TYPE_MIN: { RegisterEntry t_[1] = { REG_##T##MIN(0, r->addr, r->lo.M, r->def.M) }; *e = t_[0]; } break;            \
+        case REGV_TYPE_MAX: { RegisterEntry t_[1] = { REG_##T##MAX(0, r->addr, r->hi.M, r->def.M) }; *e = t_[0]; } break;            \
+        case REGV_TYPE_RANGE: { RegisterEntry t_[1] = { REG_##T##RANGE(0, r->addr, r->lo.M, r->hi.M, r->def.M) }; *e = t_[0]; } break; \
+        default: { RegisterEntry t_[1] = { REGx_##T##FNC(0, r->addr, rt_validator, r->def.M, (void *)(intptr_t)r->cbkind) }; *e = t_[0]; } break; \
+        }                                                                                                  \
+        break;
+
+
+static void
+rt_entry_via_macros(RegisterEntry *e, const struct rt_reg *r)
+{
+    switch (r->type) {
+        RT_VIA_MACROS_TYPE(U16, REG_TYPE_UINT16, u16)
+        RT_VIA_MACROS_TYPE(U32, REG_TYPE_UINT32, u32)
+        RT_VIA_MACROS_TYPE(U64, REG_TYPE_UINT64, u64)
+        RT_VIA_MACROS_TYPE(S16, REG_TYPE_SINT16, s16)
+        RT_VIA_MACROS_TYPE(S32, REG_TYPE_SINT32, s32)
+        RT_VIA_MACROS_TYPE(S64, REG_TYPE_SINT64, s64)
+        RT_VIA_MACROS_TYPE(F32, REG_TYPE_FLOAT32, f32)
+        RT_VIA_MACROS_TYPE(F64, REG_TYPE_FLOAT64, f64)
+    default: break;
+    }
+}
+
+static unsigned rt_build_toggle; /* every second table is written with the header's macros */
+static int rt_build_mode = -1;   /* -1: alternate; 0 / 1: a harness decides (field by field / macros) */
+
 /* build the real table description in the arena (exact-size arrays incl. sentinels) */
 static void
 rt_build(struct rt_inst *in, const struct rt_desc *d)
 {
+    const int via_macros = rt_build_mode >= 0 ? rt_build_mode : (int)((rt_build_toggle++ + vh_unit_salt) & 1u);
     memset(in, 0, sizeof *in);
     in->d = *d;
     in->areas = vh_arena(sizeof(RegisterArea) * (size_t)(d->nareas + 1));
@@ -253,7 +288,18 @@ rt_build(struct rt_inst *in, const struct rt_desc *d)
         ra->size = a->size;
         ra->flags = (uint16_t)((a->readable ? REG_AF_READABLE : 0) | (a->writeable ? REG_AF_WRITEABLE : 0)
                                | (a->skipdef ? REG_AF_SKIP_DEFAULTS : 0));
-        if (a->custom) {
+        if (via_macros) {
+            if (a->custom) {
+                const RegisterArea t = MAKE_CUSTOM_AREA(rt_cb_read, a->has_write ? rt_cb_write : NULL, a->base, a->size, ra->flags);
+                *ra = t;
+            } else {
+                /* the macro carries its own storage of constant size; the harness' poisoned block replaces it */
+                const RegisterArea t = MAKE_MEMORY_AREA(a->base, 1, ra->flags);
+                *ra = t;
+                ra->size = a->size;
+                ra->mem = in->store[i];
+            }
+        } else if (a->custom) {
             ra->read = rt_cb_read;
             ra->write = a->has_write ? rt_cb_write : NULL;
             ra->mem = NULL;
@@ -266,6 +312,10 @@ rt_build(struct rt_inst *in, const struct rt_desc *d)
     for (int i = 0; i < d->nregs; i++) {
         const struct rt_reg *r = &d->reg[i];
         RegisterEntry *e = &in->entries[i];
+        if (via_macros) {
+            rt_entry_via_macros(e, r);
+            continue;
+        }
         e->type = (RegisterType)r->type;
         e->default_value = r->def;
         e->address = r->addr;
